@@ -39,10 +39,6 @@ func newBaseMatcher(results []interface{}, funTyp reflect.Type) *BaseMatcher {
 
 // Result 回参
 func (c *BaseMatcher) Result() []reflect.Value {
-	if len(c.results) <= 1 {
-		return c.results[c.curNum]
-	}
-
 	curNum := atomic.LoadInt32(&c.curNum)
 	verifHook("matcher.loaded", uintptr(unsafe.Pointer(c)), uintptr(curNum))
 	if length := len(c.results); curNum >= int32(length) {
